@@ -265,7 +265,9 @@ def datasets(seed):
     rng = np.random.default_rng(seed)
     a = np.round(np.r_[rng.normal(size=6), 8 + rng.normal(size=6)], 3).reshape(-1, 1)
     b = np.round(np.r_[rng.normal(size=(4, 2)), 6 + rng.normal(size=(4, 2)), rng.normal(size=(2, 2))], 3)
-    return {"D1": pd.DataFrame(a, columns=["x"]), "D2": pd.DataFrame(b, columns=["u", "v"])}
+    c = np.round(np.r_[3 + rng.normal(size=4), rng.normal(size=5)], 3).reshape(-1, 1)
+    # D3: as many columns as D1 but another length (only ever the argument of the last call of a history)
+    return {"D1": pd.DataFrame(a, columns=["x"]), "D2": pd.DataFrame(b, columns=["u", "v"]), "D3": pd.DataFrame(c, columns=["x"])}
 
 
 def cuts_for(k):
@@ -544,6 +546,14 @@ def histories(cfg, L, transform_interior):
         for h in itertools.product(interior, repeat=k - 1):
             for z in last_only:
                 yield list(h) + [z]
+    if not cfg.is_scorer:
+        # a third dataset (D1's width, another length) as the argument of the last call: what was learnt from D1 must not depend on
+        # calls on data of another width in between
+        for k in range(2, L + 1):
+            for h in itertools.product(interior, repeat=k - 1):
+                if any(op == "fit" for op, _ in h):
+                    for z in (("predict", "D3"), ("transform_scores", "D3")):
+                        yield list(h) + [z]
 
 
 # --------------------------------------------------------------------------------------------------------- part P: pairs
